@@ -65,7 +65,7 @@ class ParallelAction : public AssembleAction {
     virtual void onFinished(bool is_succ, const Reason &why, const Trace &trace) override;
 
   private:
-    void stopAllActions();
+    bool stopAllActions();
     void pauseAllActions();
 
     void onChildFinished(int index, bool is_succ);
